@@ -175,6 +175,8 @@ class KernRun:
                    "np.asarray (same data)", "len(memoryview) = shape[0]", "max/min/fabs (exact)",
                    "cos/sin/sqrt/acos/atan2 (uninterpreted)", "openmp.omp_get_num_procs (int >= 1)"):
             rep.stubs.add(st)
+        for h in sorted(eng.hints_used):
+            rep.hints.add(h)
         rep.extra["contracts_used"] = sorted({getattr(vc, "contract_key", "") for _, _, vc in vcs})
         rep.extra["calls_by_contract"] = sorted("%s -> %s" % c for c in eng.calls)
         return vcs
